@@ -7,7 +7,8 @@ import vlib
 
 
 def classify(e, mon):
-    return {"monitor": mon, "op": e["op"], "ok": e["ok"], "state": e["pre"]["buf"][e["b"] - 1]["st"] if e["b"] else ""}
+    return {"monitor": mon, "op": e["op"], "ok": e["ok"], "state": e["pre"]["buf"][e["b"] - 1]["st"] if e["b"] else "",
+            "delay": e["pre"]["delay"]}
 
 
 def run(ctx):
@@ -25,7 +26,8 @@ def run(ctx):
     stats = {"executed": 0, "execute_too_early": 0, "execute_approver_revoked": 0, "execute_unapproved": 0,
              "approve_twice": 0, "approve_without_role": 0, "rerun_closed": 0, "create_bad_signer": 0,
              "delay_increased": 0, "recreated": 0, "executed_readonly_signer": 0, "executed_wallet_listed_twice": 0,
-             "executed_no_accounts": 0, "executed_empty_data": 0, "executed_nonsigner_wallet": 0}
+             "executed_no_accounts": 0, "executed_empty_data": 0, "executed_nonsigner_wallet": 0,
+             "increase_from_above_30_days": 0, "increase_overflow_rejected": 0, "executed_after_long_delay": 0}
     seen = set()
     total = 0
     # the model's shape classes (1: the wallet signs, 2: nobody signs, 3: a foreign signer) are executed as four
@@ -34,7 +36,9 @@ def run(ctx):
     runs = [("replay", ["replay", "--in", ctx.path("paths.ndjson"), "--probe", 1])]
     runs += [("replay-v%d" % v, ["replay", "--in", ctx.path("paths.ndjson"), "--variant", v] + ([] if q else ["--probe", 1]))
              for v in (1, 2, 3)]
-    runs += [("random", ["random", "--seed", ctx.seed, "--n", 150 if q else 2000, "--len", 40])]
+    runs += [("random", ["random", "--seed", ctx.seed, "--n", 150 if q else 2000, "--len", 40]),
+             # large delays (30 / 90 days .. u32::MAX), increments 0 / 1 / one day / overflowing u32
+             ("delays", ["delays"])]
     vlib.write_ndjson(ctx.path("paths.ndjson"), paths)
     for name, args in runs:
         tr = ctx.path(name + ".trace.ndjson")
@@ -45,9 +49,15 @@ def run(ctx):
         for e in ev:
             pre = e["pre"]
             b = pre["buf"][e["b"] - 1] if e["b"] else None
+            if e["op"] == "increase_delay_big":
+                stats["increase_from_above_30_days"] += e["ok"]
+                stats["increase_overflow_rejected"] += (not e["ok"]) and not e["fits"] and e["xs"] != "0"
+                seen.add((e["op"], e["xs"], pre["delay"]))
+                continue
             if e["op"] == "execute":
                 if e["ok"]:
                     stats["executed"] += 1
+                    stats["executed_after_long_delay"] += pre["delay"] > 30 * 86400
                     ms = e["buffered"]["metas"]
                     stats["executed_readonly_signer"] += any(m["signer"] and not m["writable"] for m in ms)
                     stats["executed_wallet_listed_twice"] += sum(m["key"] == "W" for m in ms) > 1
@@ -71,6 +81,7 @@ def run(ctx):
                 stats["recreated"] += e["ok"] and b["st"] in ("executed", "cancelled")
             elif e["op"] == "increase_delay":
                 stats["delay_increased"] += e["ok"]
+                stats["increase_from_above_30_days"] += e["ok"] and pre["delay"] > 30 * 86400
             seen.add((e["op"], e["b"], e["x"], vlib.json.dumps(pre, sort_keys=True)))
         ctx.cov["samples"] += [ev[len(ev) // 2], ev[-1]]
         for f in fails:
